@@ -5,6 +5,7 @@ import (
 	"go/token"
 	"go/types"
 	"math/big"
+	"regexp"
 	"strings"
 
 	"golang.org/x/tools/go/ssa"
@@ -316,6 +317,26 @@ func (fr *Frame) contractCall(b *ssa.BasicBlock, st *State, callee *ssa.Function
 		env := &SpecEnv{fr: fr, vars: renv, now: st, old: old, pkg: callee.Pkg.Pkg}
 		t, qs := fr.evalFact(en.E, env)
 		fc.addFactQ(guard, t, qs)
+		// a post-condition `len(result) == <numeral>` makes later appends of the result unrollable
+		var rs []Val
+		if res.IsAg {
+			rs = res.Agg
+		} else {
+			rs = []Val{res}
+		}
+		for _, r := range rs {
+			if r.IsAg || r.Typ == nil {
+				continue
+			}
+			if _, ok := r.Typ.Underlying().(*types.Slice); !ok {
+				continue
+			}
+			if m := regexp.MustCompile(`\(= \(sl_len ` + regexp.QuoteMeta(r.S) + `\) (\d+)\)`).FindStringSubmatch(t); m != nil && !strings.Contains(t, "=>") {
+				var n int64
+				fmt.Sscan(m[1], &n)
+				fc.knownLen[r.S] = n
+			}
+		}
 	}
 	return res
 }
@@ -902,12 +923,20 @@ func (fr *Frame) execAppend(b *ssa.BasicBlock, st *State, args []Val, resT types
 			newRow = nr
 		} else {
 			newRow = fc.freshConst("approw", arrSort(eh.sort))
-			var rowFacts []string
+			fc.appendLens = append(fc.appendLens, lenS)
 			if !srcIsString {
-				rowFacts = append(rowFacts, fmt.Sprintf("(forall ((i Int)) (! (=> (and (<= 0 i) (< i %s)) (= (select %s (+ %s %s i)) (select %s (+ %s i)))) :pattern ((select %s (+ %s %s i)))))", lenT, newRow, offS, lenS, rowT, offT, newRow, offS, lenS))
+				fc.qcount++
+				iv := fmt.Sprintf("qv%dx_ai", fc.qcount)
+				body := fmt.Sprintf("(=> (and (<= 0 %s) (< %s %s)) (= (select %s (+ %s %s %s)) (select %s (+ %s %s))))", iv, iv, lenT, newRow, offS, lenS, iv, rowT, offT, iv)
+				all := fmt.Sprintf("(forall ((%s Int)) (! %s :pattern ((select %s (+ %s %s %s)))))", iv, body, newRow, offS, lenS, iv)
+				fc.addFactQ(fr.reach[b.Index], all, []QInst{{Forall: all, Var: iv, Inst: body}})
 			}
-			rowFacts = append(rowFacts, fmt.Sprintf("(forall ((j Int)) (! (=> (or (< j (+ %s %s)) (>= j (+ %s %s))) (= (select %s j) (select %s j))) :pattern ((select %s j))))", offS, lenS, offS, newLen, newRow, oldRowS, newRow))
-			fr.assume(b, sAnd(rowFacts...))
+			fc.qcount++
+			jv := fmt.Sprintf("qv%dx_aj", fc.qcount)
+			body2 := fmt.Sprintf("(=> (or (< %s (+ %s %s)) (>= %s (+ %s %s))) (= (select %s %s) (select %s %s)))", jv, offS, lenS, jv, offS, newLen, newRow, jv, oldRowS, jv)
+			all2 := fmt.Sprintf("(forall ((%s Int)) (! %s :pattern ((select %s %s))))", jv, body2, newRow, jv)
+			fc.addFactQ(fr.reach[b.Index], all2, []QInst{{Forall: all2, Var: jv, Inst: body2}})
+			fc.appendOffs = append(fc.appendOffs, offS)
 		}
 		if b8, ok := el.Underlying().(*types.Basic); ok && b8.Kind() == types.Uint8 {
 			fr.specNative("bcat")
